@@ -76,7 +76,7 @@ fn replay_special(prop: &str, part: &str, tape: &[u16], known: &Known, strict: b
 pub fn report_known(prop: &str, known: &Known) -> Vec<String> {
     let mut lines = vec![];
     for e in known.for_prop(prop) {
-        let file = format!("{}/known/{}-{}.json", crate::verif_root(), prop, e.sig);
+        let file = format!("{}/known/{}-{}.json", crate::verif_root(), prop, crate::runner::safe_sig(&e.sig));
         match replay_file(prop, &file, known, true) {
             Ok(Some(_)) => lines.push(format!("KNOWN-FINDING: property={} sig={} {}", prop, e.sig, e.desc)),
             Ok(None) => lines.push(format!("note: known finding {} of {} no longer reproduces on its canonical input ({})", e.sig, prop, file)),
